@@ -76,6 +76,12 @@ def generate(rng, tier):
         t = rng.choice(targets)
         link = os.path.join(os.path.dirname(t), "link_to_" + os.path.basename(t))
         tree[link] = {"t": "l", "to": os.path.basename(t)}
+    if rng.random() < 0.15:
+        # names that look like shell / template syntax: a left-over of a failed name template next to the real file
+        # (the variable is defined in the environment of the simulated process), a name starting with a tilde
+        a, b = rng.choice([("plate_$SHOT.exr", "plate_sh010.exr"), ("${SHOT}_v2.mov", "sh010_v2.mov"), ("~notes.txt", "notes.txt")])
+        tree[a] = {"t": "f", "c": gen.unique_content(rng, rng.choice([9, 300]))}
+        tree[b] = {"t": "f", "c": gen.unique_content(rng, rng.choice([9, 300]))}
     env["tree"] = tree
     r = rng.random()
     if r < 0.15:
@@ -171,6 +177,7 @@ def _lib_calls(cs, calls, codec_values):
 
 
 def execute(sc, ctx):
+    os.environ["SHOT"] = "sh010"  # (inherited by every simulated process of the run)
     w = core.World(sc["world"], ctx.subdir("main"))
     profile = sc["world"]["read_profile"]
     cache = {}
